@@ -40,6 +40,13 @@
 #define V_INPUT(T) T nondet_##T(void);
 #endif
 
+#ifdef VERIF_LEAKY_CALLEES
+/* used as an ASSUMPTION inside a loop: the callee's free() of the old buffer is not modelled (the
+ * old buffer is leaked in the model; callers under contract never keep an alias to it) */
+#define V_FREES_CALLEE(...)
+#else
+#define V_FREES_CALLEE(...) V_FREES(__VA_ARGS__)
+#endif
 
 /* Tie the first bytes of a harness-built buffer of symbolic size n to a fixed-size array of the
  * input record, position by position and loop-free (CBMC: assumptions on the nondet heap
